@@ -8,7 +8,7 @@ output with a bit-level next-state model on every cycle.
 import random
 
 from vmon import env  # noqa: F401
-from vmon.simkit import Top, Mon, simulate, bits, biased_bits
+from vmon.simkit import Top, Mon, simulate, bits, biased_bits, reset_plan, drive_reset
 
 from amaranth import Shape, Value, unsigned, signed
 from amaranth.lib import enum as am_enum
@@ -155,9 +155,12 @@ def run_case(case):
         if w:
             ctx.set(Value.cast(sig), v)
 
+    resets = reset_plan(case["cycles"])
+
     async def bench(ctx):
         for c in range(case["cycles"]):
             mon.cycle = c
+            drive_reset(ctx, c in resets)
             w_stb = int(rng.random() < 0.4)
             r_stb = int(rng.random() < 0.5)
             w_data = biased_bits(rng, w)
@@ -208,6 +211,9 @@ def run_case(case):
                         st["nontrivial"] = True
                     s = (s & ~hw) | st_
                 st["storage"] = s & mask
+                if c in resets:
+                    st["storage"] = init_bits        # a warm reset returns the field to its initial value
+                    mon.count("warm_resets")
             await ctx.tick()
 
     simulate(Top({"dut": dut}), bench, mon)
